@@ -15,7 +15,7 @@ import warnings
 import common
 
 RULE = ("cases are (operation, family, size): operations fromdict, asdict, asdict_simplified, migration_matrices, in_generations, "
-        "to_ms, dumps(yaml, simplified), dumps(json, resolved), discrete_demographic_events; families islands (clique, one rate), star and clique with rates that change once, chains and fans of same-time pulses, ring, "
+        "to_ms, dumps(yaml, simplified), dumps(json, resolved), discrete_demographic_events; families islands (clique, one rate), a clique plus one or two leftover migrations of the same rate, two cliques joined by one migration, star and clique with rates that change once, chains and fans of same-time pulses, ring, "
         "path, star (one shared rate), ring with distinct rates, ancestry chain, admixture ladder, dense ancestry, many epochs, many pulses, two-rate clique-with-holes, "
         "binary split tree; sizes 2..12 step 2 (every family), 16, 24, 32 where the count stays under the budget; non-trivial = size "
         ">= 6; distinct by triple")
@@ -145,7 +145,22 @@ def families():
                            dict(source="d%d" % i, dest="d%d" % j, rate=0.5 / max(n - 1, 1), start_time=50)]
         return dict(time_units="generations", demes=demes_n(n), migrations=ms)
 
-    return {"pulse-chain-same-time": pulse_chain, "pulse-fan-same-time": pulse_fan, "star-two-periods": star_two_periods, "clique-two-periods": clique_two_periods, "ladder": ladder, "dense-ancestry": dense_ancestry, "islands": islands, "ring": ring, "ring-distinct": lambda n: ring(n, True), "path": path, "star": star,
+    def continent_islands(n, both=False):
+        # an (n-1)-way symmetric block plus one (or a pair of) leftover migration(s) at the same rate and window
+        ms = [dict(demes=["d%d" % i for i in range(1, n)], rate=1e-4)] if n > 2 else []
+        ms.append(dict(source="d0", dest="d1", rate=1e-4))
+        if both:
+            ms.append(dict(source="d1", dest="d0", rate=1e-4))
+        return dict(time_units="generations", demes=demes_n(n), migrations=ms)
+
+    def two_cliques(n):
+        # two symmetric blocks of the same rate joined by one directed migration of that rate
+        a, b = ["d%d" % i for i in range(n // 2)], ["d%d" % i for i in range(n // 2, n)]
+        ms = [dict(demes=x, rate=1e-4) for x in (a, b) if len(x) > 1] + [dict(source=a[0], dest=b[0], rate=1e-4)]
+        return dict(time_units="generations", demes=demes_n(n), migrations=ms)
+
+    return {"continent-islands": continent_islands, "continent-islands-both": lambda n: continent_islands(n, True), "two-cliques-bridge": two_cliques,
+            "pulse-chain-same-time": pulse_chain, "pulse-fan-same-time": pulse_fan, "star-two-periods": star_two_periods, "clique-two-periods": clique_two_periods, "ladder": ladder, "dense-ancestry": dense_ancestry, "islands": islands, "ring": ring, "ring-distinct": lambda n: ring(n, True), "path": path, "star": star,
             "chain": chain, "epochs": epochs, "pulses": pulses, "holes": holes, "tree": tree}
 
 
